@@ -15,7 +15,9 @@ RULE = ("random ragged DNF lists (rows 1-6, disjuncts 1-3, conjuncts 1-3, 2-3 ca
         "(int64 / int32 ndarray, nested list, 3-D array for one disjunct) whose padding slots (-1,-1) stand anywhere - in front of, between and behind the "
         "literals of a disjunct, whole disjuncts (in any position) and whole rows of padding - x ALL assignments x the same encodings; compared with "
         "the truth value read off the slots by definition (a disjunct = conjunction of its non-padding literals, an all-padding disjunct "
-        "contributes nothing, a row without a real disjunct is false) and with Ds.Prov.query on the same raw container.")
+        "contributes nothing, a row without a real disjunct is false) and with Ds.Prov.query on the same raw container. "
+        "Third stream (2 per quick run, 6 per thorough worker): LARGE raw containers (20 000 - 300 000 rows of up to 3x3 slots, odd row counts, and 65 537+ rows of "
+        "one slot) x 4 random assignments, mask and index output, against the definition evaluated with vectorised numpy.")
 
 
 def raw_case(ctx, I, n_units, n_cands, data):
@@ -165,10 +167,53 @@ def one_case(ctx, I, n_units, n_cands, exprs, late=False):
             ctx.dist["raw_array_differs"] += 1
 
 
+def large_case(ctx, I, rows, d, c, n_units, n_cands):
+    """a LARGE raw container (tens of thousands of rows): the truth values are computed by definition with vectorised numpy, a handful of assignments"""
+    rng = ctx.rng
+    nr = np.random.RandomState(rng.randrange(2 ** 31))
+    units = nr.randint(0, n_units, size=(rows, d, c))
+    cands = nr.randint(0, n_cands, size=(rows, d, c))
+    pad = nr.rand(rows, d, c) < 0.3
+    pad[:, 0, 0] &= nr.rand(rows) < 0.1                     # most rows keep a real literal in the first slot
+    data = np.stack([np.where(pad, -1, units), np.where(pad, -1, cands)], axis=-1).astype(np.int64)
+    case = dict(large=True, rows=rows, disjuncts=d, conjuncts=c, nUnits=n_units, nCands=n_cands, numpy_seed="derived from VERIF_SEED")
+    ctx.dist["built=large raw 4-D data"] += 1
+    ctx.case(["large", rows, d, c, n_units, n_cands], nontrivial=True, sample=case, rows=rows, cands=n_cands, ragged=True)
+    ctx.maxi(rows=rows)
+    try:
+        prov = I["provenance"].Provenance(units=n_units, candidates=n_cands, data=data.copy())
+    except Exception as e:  # noqa
+        ctx.mismatch("Provenance(units=..., data=<large raw array>) raised", case, impl=(exc_name(e), repr(e)), spec="accepted")
+        return
+    for _ in range(4):
+        a = np.array([rng.randrange(n_cands) for _ in range(n_units)], dtype=int)
+        lit = (a[np.where(pad, 0, units)] == cands) | pad                    # a padding slot does not constrain its disjunct
+        real = ~np.all(pad, axis=2)                                          # a disjunct without a literal contributes nothing
+        want = np.any(np.all(lit, axis=2) & real, axis=1)
+        try:
+            got = np.asarray(prov.query(a)).astype(bool)
+            idx = np.asarray(prov.query(a, dtype=int)).reshape(-1)
+        except Exception as e:  # noqa
+            ctx.mismatch("query raised on a large container", dict(case, assignment=a.tolist()), impl=(exc_name(e), repr(e)), spec="mask of %d rows" % rows)
+            return
+        if got.shape != want.shape or not np.array_equal(got, want) or not np.array_equal(idx, np.flatnonzero(want)):
+            bad = np.flatnonzero(got != want) if got.shape == want.shape else np.array([], dtype=int)
+            r0 = int(bad[0]) if len(bad) else -1
+            ctx.mismatch("query != truth of the row formulas on a large container (%d rows differ, the first at position %d)" % (len(bad), r0),
+                         dict(case, assignment=a.tolist(), first_bad_row=r0, row_data=(data[r0].tolist() if r0 >= 0 else None)),
+                         impl=dict(selected=int(got.sum()), mask_at_row=(bool(got[r0]) if r0 >= 0 else None), n_idx=int(len(idx))),
+                         spec=dict(selected=int(want.sum()), mask_at_row=(bool(want[r0]) if r0 >= 0 else None)))
+            return
+
+
 def run(ctx):
     I = load_impl(ctx)
     rng = ctx.rng
     n_cases = 120 if ctx.tier == "quick" else 1500
+    # large containers: more literal slots than any block / chunk size a vectorised implementation might use, row counts that are no multiple of anything
+    for rows, d, c in ([(rng.randrange(20011, 40000) | 1, rng.randint(2, 3), rng.randint(1, 3)), (65536 + rng.randrange(1, 999), 1, 1)]
+                       + ([(rng.randrange(100003, 300000) | 1, rng.randint(1, 3), rng.randint(1, 3)) for _ in range(4)] if ctx.tier != "quick" else [])):
+        large_case(ctx, I, rows, d, c, rng.randint(2, 5), rng.choice([2, 2, 3]))
     # corpus first: the F5 witness and friends
     corpus = [
         (3, 2, [{"eq": [0, 1]}, {"disj": [[[1, 1]], [[2, 1]]]}]),
